@@ -206,6 +206,12 @@ theorem C01_compiled_executor_agrees_with_any_valid_order {Val : Type} (winsOf :
   rw [exec_refines_dataflow winsOf step B Tr hok hvc.1 hpos hsame hkinds hseq]
   exact Rex.Dataflow.order_independent_in (dfGraph winsOf step) U Tr.flatten other (fun _ => none) hvc hvo v hv1 hv2
 
+/-- the executor's own order is valid whenever the decision procedure `validInOk` (run by the driver on every exported
+instance) says so — with `U` = the vertices the compiled horizon executes -/
+theorem C01_executor_order_valid {Val : Type} (winsOf : Wins) (step : Step Val) (order : List Vtx)
+    (h : validInOk winsOf order = true) : Rex.Dataflow.ValidIn (dfGraph winsOf step) (· ∈ order) order :=
+  validIn_of_ok winsOf step order h
+
 /-- non-vacuity of `ValidIn` with a non-existent dependency: vertex 1 depends on 0 and on 7, which does not exist -/
 example : Rex.Dataflow.ValidIn (⟨fun v => if v = 1 then [0, 7] else [], fun _ l => l.sum, 0⟩ : Rex.Dataflow.Graph Nat Nat)
     (fun v => v < 2) [0, 1] := by
